@@ -9,6 +9,12 @@ Correspondence / oracles:
   ``pysam.VariantFile``; the internal values handed to the record formatter are captured (patched
   ``LocusAssemblyData.format_vcf_record``) and every numeric field of the text must read back as the model's
   3-decimal rendering of the internal value;
+* input shapes of the application glue (`extra_streams`): a fabricated haplotype VCF with 130-200 ALT haplotypes (true haplotypes
+  listed last) through call / call-pedigree; assemble with --haplotype-posterior-threshold 1.0 / 0.01 on shallow noisy data
+  (FILTER NOA records, 50-180 ALTs) fed to the three callers; --filter-input-haplotypes on a PF-annotated file (expected ALTs,
+  SNVPOS / NVAR, REFMASKED derived from the retained alleles); ploidies 1 / 3 / 8 and --ploidy as an integer; --bam list files,
+  --sample-pool (name / file), --read-group-field ID, a pedigree member without a BAM; BED3 (ID '.'), gzipped BED, --region
+  with / without --region-id, a target starting at POS=1, two contigs;
 * unit-level: the code's ``vcfstr``, GT formatting / sorting, ``sumarise_vcf_record``, the G-array producers and
   ``relabel`` against the model on generated inputs.
 
@@ -60,7 +66,8 @@ THEOREMS = [
     "MCHap.C07.sum_round_tolerance",
 ]
 RULE = ("cases: every record line printed by assemble / call / call-exact / call-pedigree on generated datasets x random "
-        "--report subsets (+ generated inputs of vcfstr, GT formatting, sumarise_vcf_record, G-array producers). "
+        "--report subsets, plus the glue streams (large panels, NOA / many ALTs, allele filter, ploidy 1/3/8 and integer, bam lists, pools, "
+        "read-group ID, BAM-less pedigree member, BED3 / gz / --region / POS=1 / two contigs) (+ generated inputs of vcfstr, GT formatting, sumarise_vcf_record, G-array producers). "
         "Non-trivial record: >= 2 ALT and an optional R- or G-length field present. Distinct by the record text "
         "without the command line.")
 
@@ -1445,7 +1452,8 @@ NO_G = ("GP", "GL", "FORMAT/GP", "FORMAT/GL")
 def plain_header(ds, extra=()):
     lines = ["##fileformat=VCFv4.3", '##FILTER=<ID=PASS,Description="All filters passed">']
     lines += [f"##contig=<ID={c},length={len(s)}>" for c, s in ds.contigs.items()]
-    lines += ['##INFO=<ID=END,Number=1,Type=Integer,Description="End position">', *extra]
+    lines += ['##INFO=<ID=END,Number=1,Type=Integer,Description="End position">', *extra,
+              '##FORMAT=<ID=GT,Number=1,Type=String,Description="Genotype">']      # add_prior_field declares PF in front of the first FORMAT line
     lines.append("#CHROM\tPOS\tID\tREF\tALT\tQUAL\tFILTER\tINFO")
     return lines
 
@@ -1790,9 +1798,56 @@ def glue_stream(rn, tier):
                    pl + [gp], in_records=in_recs, stream=f"pedigree-member-without-bam:{role}", samples=names + ["GHOST"])
 
 
+def targets_stream(rn, tier):
+    """target specifications: BED3 (no name -> ID '.'), gzipped BED4, --region with and without --region-id, a window starting
+    at the first base of a contig (POS=1), loci on two contigs; the nameless output is re-called by the callers"""
+    import gzip
+    chk, r, work = rn.chk, rn.r, rn.work
+    fast = ["--mcmc-steps", "150", "--mcmc-burn", "50"]
+    n_ds = {"warm": 1, "quick": 1, "thorough": 3}[tier]
+    for k in range(n_ds):
+        sub = C.rng(f"{PROP}:targets{k}")
+        ds = S.make_dataset(sub, os.path.join(work, f"dsT{k}"), n_samples=2, n_loci=4, ploidies=(2, 4), max_snvs=3,
+                            features=set(), depth=(6, 12), n_contigs=2, contig_len=400)
+        ploidies = [ds.ploidy[s] for s in ds.samples]
+        chk.count(f"targets:contigs-with-loci={len({l.contig for l in ds.loci})}")
+        # windows: the first locus of every contig is widened to start at base 1 of the contig
+        wins, firsts = [], set()
+        for l in ds.loci:
+            if l.contig not in firsts:
+                firsts.add(l.contig)
+                wins.append((l.contig, 0, l.stop, l.name))
+            else:
+                wins.append((l.contig, l.start, l.stop, l.name))
+        base = ["mchap", "assemble", "--bam", *ds.bams, "--ploidy", ds.ploidy_file, "--variants", ds.snv_vcf, "--reference", ds.fasta, *fast]
+        # ---- BED3
+        bed3 = S.write_text(os.path.join(work, f"t{k}.bed3"), "".join(f"{c}\t{a}\t{b}\n" for c, a, b, _ in wins))
+        t3 = [(c, a, b, ".") for c, a, b, _ in wins]
+        _, recs, code, _ = rn.run(ds, "assemble", base + ["--targets", bed3, "--report", *report_subset(r)], ploidies, targets=t3, stream="targets-BED3")
+        if code == 0 and len(recs) != len(t3):
+            chk.violation("assemble did not print one record per BED3 target", {"records": len(recs), "targets": t3}, "C07/assemble/one-record-per-target")
+        chk.count("targets:records-at-POS=1", sum(1 for x in recs if x["POS"] == 1))
+        if code == 0 and recs:
+            hap_gz, in_recs = hap_inputs(rn, ds, f"hapT{k}", last_output(rn))
+            three_callers(rn, ds, hap_gz, in_recs, ploidies, fast, "targets-nameless-input", k, exact_limit=12)
+        # ---- gzipped BED4 (with a comment line)
+        bedgz = os.path.join(work, f"t{k}.bed.gz")
+        with gzip.open(bedgz, "wt") as f:
+            f.write("#contig\tstart\tstop\tname\n" + "".join(f"{c}\t{a}\t{b}\t{n}\n" for c, a, b, n in wins))
+        rn.run(ds, "assemble", base + ["--targets", bedgz, "--report", *report_subset(r)], ploidies, targets=wins, stream="targets-BED4-gz")
+        # ---- --region (half-open 0-based interval like a BED line), without and with --region-id
+        picks = [wins[0], r.choice(wins[1:])] if tier != "warm" else [wins[0]]
+        for j, (c, a, b, n) in enumerate(picks):
+            with_id = (j + k + C.seed()) % 2 == 1
+            argv = base + ["--region", f"{c}:{a}-{b}"] + (["--region-id", f"reg_{n}"] if with_id else []) + ["--report", *report_subset(r)]
+            rn.run(ds, "assemble", argv, ploidies, targets=[(c, a, b, f"reg_{n}" if with_id else ".")],
+                   stream="region-with-id" if with_id else "region-without-id")
+
+
 def extra_streams(rn, tier):
     large_panel_stream(rn, tier)
     noa_stream(rn, tier)
     filter_stream(rn, tier)
     ploidy_stream(rn, tier)
     glue_stream(rn, tier)
+    targets_stream(rn, tier)
